@@ -18,6 +18,7 @@ import (
 	"net"
 	"sort"
 	"strings"
+	"sync"
 	"time"
 
 	"github.com/postalsys/muti-metroo/internal/identity"
@@ -935,4 +936,195 @@ func c8HasID(p []c8ID, id c8ID) bool {
 		}
 	}
 	return false
+}
+
+// ---------------------------------------------------------------- lost-update phase (concurrent parts)
+
+// The lost-update phase races stale cleanup against fresh submissions on the same keys.
+// Every episode has its own rig whose tables hold routes written BEFORE one global mark;
+// after the mark the test sleeps c8LUSleep once. In an episode, adder goroutines (own
+// origin each, strictly increasing sequences, so every submission must be accepted) and a
+// cleaner goroutine (maxAge = time since the mark minus c8LUSlack) start together.
+// Soundness without trusting the scheduler: the pre-mark routes are always stale for that
+// maxAge; a route written in the episode is at least c8LUSleep younger than the mark, so a
+// cleanup can only see it as stale if more than c8LUSleep-c8LUSlack passes between the
+// harness computing maxAge and the table reading the clock — the harness measures the whole
+// call and discards the episode (no verdict) when it took that long. Otherwise, after the
+// goroutines have joined, the last submission of every (key, adder) must be stored and the
+// lookup for the key must be at least as good as the best of them.
+const (
+	c8LUSleep = 300 * time.Millisecond
+	c8LUSlack = 100 * time.Millisecond
+)
+
+func c8LUKeys(kind string) []c8Ent {
+	switch kind {
+	case c8Cidr:
+		var out []c8Ent
+		for _, s := range []string{"10.9.0.0/16", "192.168.9.0/24"} {
+			nw := routing.MustParseCIDR(s)
+			out = append(out, c8Ent{Kind: c8Cidr, Key: c8Canon(nw).key(), Raw: nw.String(), Net: nw})
+		}
+		return out
+	case c8Domain:
+		return []c8Ent{{Kind: c8Domain, Key: "api.ex.com", Raw: "api.ex.com"}, {Kind: c8Domain, Key: "*.ex.org", Raw: "*.ex.org"}}
+	case c8Forward:
+		return []c8Ent{{Kind: c8Forward, Key: "web", Raw: "web", Target: "t:1"}, {Kind: c8Forward, Key: "db", Raw: "db", Target: "t:2"}}
+	default:
+		a, b := c8MkID(0x71), c8MkID(0x72)
+		return []c8Ent{{Kind: c8Agent, Key: string(a[:]), Raw: a.ShortString(), Agent: a}, {Kind: c8Agent, Key: string(b[:]), Raw: b.ShortString(), Agent: b}}
+	}
+}
+
+// c8LULookup returns the metric of the route the table's lookup selects for the key.
+func c8LULookup(rig *c8Rig, e *c8Ent) (int, bool) {
+	switch e.Kind {
+	case c8Cidr:
+		if r := rig.cidr.t.Lookup(e.Net.IP); r != nil {
+			return int(r.Metric), true
+		}
+	case c8Domain:
+		name := e.Raw
+		if strings.HasPrefix(name, "*.") {
+			name = "q." + name[2:]
+		}
+		if r := rig.dom.t.Lookup(name); r != nil {
+			return int(r.Metric), true
+		}
+	case c8Forward:
+		if r := rig.fwd.t.Lookup(e.Raw); r != nil {
+			return int(r.Metric), true
+		}
+	default:
+		if r := rig.agt.t.Lookup(e.Agent); r != nil {
+			return int(r.Metric), true
+		}
+	}
+	return 0, false
+}
+
+func c8LostUpdatePhase(r *verifkit.R, phase string, kinds []string, n int) {
+	type episode struct {
+		w   *c8World
+		rig *c8Rig
+	}
+	q, s1, s2 := c8MkID(0x40), c8MkID(0x41), c8MkID(0x42)
+	eps := make([]episode, n)
+	for i := range eps {
+		w := c8NewWorld(r.CaseRand(phase+"-setup", i))
+		w.names[q], w.names[s1], w.names[s2] = "Q", "S1", "S2"
+		rig := c8NewRig(w, i%2 == 0)
+		for _, k := range kinds {
+			for _, proto := range c8LUKeys(k) {
+				for j, o := range []c8ID{s1, s2} {
+					e := proto
+					e.Origin, e.NextHop, e.Seq, e.Metric, e.Path = o, q, 1, uint16(j), []c8ID{q, o}
+					rig.tabs[k].Add([]c8Ent{e}, nil)
+				}
+			}
+		}
+		eps[i] = episode{w, rig}
+	}
+	mark := time.Now()
+	time.Sleep(c8LUSleep)
+	r.Cases(phase, n, func(ci int, rng *verifkit.Rand) {
+		w, rig := eps[ci].w, eps[ci].rig
+		const adders, per = 3, 6
+		last := make([]map[string]c8Ent, adders)
+		var wg sync.WaitGroup
+		start := make(chan struct{})
+		for a := 0; a < adders; a++ {
+			ar := rng.Fork()
+			origin, hop := c8MkID(0x60+a), w.peers[a%len(w.peers)]
+			w.names[origin] = fmt.Sprintf("A%d", a+1)
+			last[a] = map[string]c8Ent{}
+			la := last[a]
+			wg.Add(1)
+			go func() {
+				defer wg.Done()
+				<-start
+				for j := 1; j <= per; j++ {
+					k := verifkit.Pick(ar, kinds)
+					e := verifkit.Pick(ar, c8LUKeys(k))
+					e.Origin, e.NextHop, e.Seq, e.Metric, e.Path = origin, hop, uint64(j), uint16(ar.Intn(6)), []c8ID{hop, origin}
+					rig.tabs[k].Add([]c8Ent{e}, nil)
+					la[e.ident()] = e
+				}
+			}()
+		}
+		removed, slow := 0, false
+		wg.Add(1)
+		go func() {
+			defer wg.Done()
+			<-start
+			for c := 0; c < 2; c++ {
+				for _, k := range kinds {
+					t1 := time.Now()
+					n := rig.tabs[k].Cleanup(t1.Sub(mark) - c8LUSlack)
+					if time.Since(t1) > c8LUSleep-c8LUSlack {
+						slow = true
+					}
+					removed += n
+				}
+			}
+		}()
+		close(start)
+		wg.Wait()
+		r.Add("lostupd_episodes", 1)
+		r.Add("lostupd_stale_routes_removed", removed)
+		if slow {
+			r.Add("lostupd_episodes_discarded_slow_cleanup", 1)
+			return
+		}
+		snaps := map[string][]c8Ent{}
+		idx := map[string]map[string]*c8Ent{}
+		for _, k := range kinds {
+			snaps[k] = rig.tabs[k].Snap()
+			idx[k] = map[string]*c8Ent{}
+			for i := range snaps[k] {
+				idx[k][snaps[k][i].ident()] = &snaps[k][i]
+			}
+		}
+		best := map[string]int{} // kind|key -> best metric among the adders' last accepted submissions
+		protos := map[string]c8Ent{}
+		subs := 0
+		for a := range last {
+			for id, e := range last[a] {
+				subs++
+				want := e
+				if rig.mgr != nil && e.Kind != c8Agent {
+					want.Metric++ // one hop through the Manager
+				}
+				wit := func() any {
+					return map[string]any{"via": rig.via(), "table": e.Kind, "last_submission_of_adder": e.show(w), "stored": c8ShowAll(w, snaps[e.Kind])}
+				}
+				got := idx[e.Kind][id]
+				switch {
+				case got == nil:
+					r.Violation("conc:accepted-route-lost-during-cleanup", phase, ci,
+						fmt.Sprintf("%s was submitted after every older route of its origin (strictly increasing sequence) and is not stored; a stale cleanup of OTHER, older routes ran concurrently", e.show(w)), wit())
+				case got.Seq != want.Seq || got.Metric != want.Metric:
+					r.Violation("conc:accepted-update-rolled-back-during-cleanup", phase, ci,
+						fmt.Sprintf("the last submission %s is stored as %s after a concurrent stale cleanup", e.show(w), got.show(w)), wit())
+				}
+				kk := e.Kind + "|" + e.Key
+				if m, ok := best[kk]; !ok || int(want.Metric) < m {
+					best[kk] = int(want.Metric)
+				}
+				protos[kk] = e
+				r.Add("lostupd_final_submissions_checked", 1)
+			}
+		}
+		for kk, m := range best {
+			e := protos[kk]
+			got, ok := c8LULookup(rig, &e)
+			if !ok || got > m {
+				r.Violation("conc:lookup-misses-accepted-route", phase, ci,
+					fmt.Sprintf("lookup for %s %s returned (metric %d, found %v) although a route with metric %d was accepted for it and nothing could remove it", e.Kind, e.Raw, got, ok, m),
+					map[string]any{"via": rig.via(), "stored": c8ShowAll(w, snaps[e.Kind])})
+			}
+			r.Add("lostupd_lookups", 1)
+		}
+		r.Eval(fmt.Sprintf("lostupd-%d-%d-%d", ci, subs, removed), removed > 0 && subs > 0)
+	})
 }
